@@ -23,8 +23,18 @@ static long long n_emitted = 0, n_run = 0, n_suspect = 0;
 static void wrap_case(int32_t lo, int32_t hi, int32_t o, int32_t p, bool force_emit) {
   if (lo > hi || o < lo || o > hi) return;
   const int64_t dif = (int64_t)hi - (int64_t)lo;
-  PredictionSchemeWrapEncodingTransform<int32_t, int32_t> enc;
+  // every second case runs on ONE encoding transform object that has been initialised with all earlier data sets; the extremes come first, last, in
+  // rising and in falling order: the announced range is the range of the data, wherever its extremes stand
+  static PredictionSchemeWrapEncodingTransform<int32_t, int32_t> reused_enc;
+  PredictionSchemeWrapEncodingTransform<int32_t, int32_t> fresh_enc;
+  PredictionSchemeWrapEncodingTransform<int32_t, int32_t> &enc = (n_run % 2) ? reused_enc : fresh_enc;
   int32_t data[3] = {lo, hi, o};
+  switch ((n_run / 2) % 4) {
+    case 1: data[0] = hi; data[1] = lo; data[2] = o; break;
+    case 2: data[0] = hi; data[1] = o; data[2] = lo; break;
+    case 3: data[0] = o; data[1] = hi; data[2] = lo; break;
+    default: break;
+  }
   enc.Init(data, 3, 1);
   int32_t corr = 0, dec = 0;
   EncoderBuffer eb;
